@@ -7,6 +7,7 @@ pub mod c09;
 pub mod c16;
 pub mod c17;
 pub mod c18;
+pub mod c19;
 
 use crate::runner::{drive, replay, Tier};
 use std::path::Path;
@@ -31,6 +32,7 @@ pub fn dispatch(id: &str, tier: Tier, replay_file: Option<&Path>) -> i32 {
         "C16" => go!(c16),
         "C17" => go!(c17),
         "C18" => go!(c18),
+        "C19" => go!(c19),
         _ => {
             eprintln!("unknown property {id}");
             2
